@@ -50,9 +50,9 @@ def countAt (bins : List (K × K)) (mn mx : Option K) (x : K) : Option K :=
     else if countAtMin x lo hi then some 0
     else if countAtMax x lo hi then some (sumCounts bins)
     else if countLeftTest x lo hi v0 vl then
-      some (countLeftResult (countLeftRatio x lo hi v0 f0) x lo hi v0 f0)
+      some (countLeftResult (countLeftRatio x lo hi v0 f0 vl fl) x lo hi v0 f0 vl fl)
     else if countRightTest x lo hi v0 vl then
-      some (countRightResult (countRightRatio x lo hi vl fl) x lo hi vl fl (sumCounts bins.dropLast))
+      some (countRightResult (countRightRatio x lo hi v0 f0 vl fl) x lo hi v0 f0 vl fl (sumCounts bins.dropLast))
     else interior bins x
   | _, _, _, _ => none
 
@@ -71,11 +71,11 @@ def quantileQ (bins : List (K × K)) (mn mx : Option K) (q : K) : Option K :=
   | some (v0, f0), some (vl, fl), some lo, some hi =>
     let total := sumCounts bins
     if quantLeftTest q total f0 fl then
-      some (quantLeftResult (quantLeftFraction q total f0) q lo v0 f0)
+      some (quantLeftResult (quantLeftFraction q total f0 fl) q lo hi v0 f0 vl fl)
     else if quantRightTest q total f0 fl then
-      let base := quantRightBase q total fl
-      some (quantRightResult (quantRightFraction base q total fl) base vl hi fl)
-    else scanQ 0 bins (quantMb q total f0)
+      let base := quantRightBase q total f0 fl
+      some (quantRightResult (quantRightFraction base q total f0 fl) base lo hi v0 f0 vl fl)
+    else scanQ 0 bins (quantMb q total f0 fl)
   | _, _, _, _ => none
 
 /-- `quantile(h, value)`: `None` outside `[0, 1]`, else `q_count = int(total_count * value)`;
@@ -89,9 +89,10 @@ def quantile (floor : K → K) (bins : List (K × K)) (mn mx : Option K) (value 
 def estimateBelow (bins : List (K × K)) (mn mx : Option K) (point : K) : Option K :=
   countAt bins mn mx point
 
-/-- `ColumnProfile.estimate_values_above(point)` (profiler.py:164-167), the generated
-`(count - missing) - count_at(point)`. -/
+/-- `ColumnProfile.estimate_values_above(point)` (profiler.py:164-167): the generated expression
+over `count`, `missing`, the histogram's own total and `count_at(point)` — in the source as it
+is, `(count - missing) - count_at(point)`. -/
 def estimateAbove (count missing : K) (bins : List (K × K)) (mn mx : Option K) (point : K) : Option K :=
-  (countAt bins mn mx point).map (fun c => Gen.DistogramExpr.estimateAbove count missing c)
+  (countAt bins mn mx point).map (fun c => Gen.DistogramExpr.estimateAbove count missing (sumCounts bins) c)
 
 end Distogram
